@@ -6,6 +6,7 @@ CONSTANTS
   Kinds = {"if", "try", "withsupp"}
   GenVars = {"x"}
   SimpleKinds = {"assign", "use", "call", "return"}
+  Shape = "any"
 INVARIANT InvC09
 INVARIANT EmitDone
 CHECK_DEADLOCK FALSE
